@@ -18,6 +18,17 @@ def run(res, tier, replay):
     sw = robust.Sweep(res, tier, rng)
     if sw.ok:
         n = robust.crash_oracle(res, sw, include_faults=True)
+        # directed (own generator state): two parts of one set found by ONE search() in one file are joined with each other, a member is
+        # extracted, the list is closed through its head - the recorded finding asan:heap-use-after-free:cabd_close (known_findings.json)
+        from vlib import cabfmt, scenario
+        r2 = random.Random(202)
+        fo = cabfmt.Folder(("none",), [cabfmt.Member(b"e%d.bin" % j, data=bytes(r2.randrange(256) for _ in range(ln))) for j, ln in enumerate([3000, 40000])])
+        for m_ in fo.members: m_.length = len(m_.data)
+        fo.prepare(r2); cabs_, names_ = cabfmt.build_set([fo], [(0, 1, 5000)], r2, names=[b"e1.cab", b"e2.cab"])
+        sc = scenario.Scn().file("in0.cab", bytes(300) + cabs_[0] + bytes(77) + cabs_[1]).op("cab_new").op("cab_search", "c0", "in0.cab").op("cab_append", "c0", "c0", 0, 1).op("cab_extract", "c0", 1, "out1", 0).op("cab_close", "c0")
+        t = scenario.run_scenarios(sw.exe, [sc])[0]; res.evaluations += 1
+        if t.crash:
+            if res.violation("memory-safety report on directed:search-list-joined-close: %s" % robust.summarize(t.crash), sc.text() + "\n# " + t.crash[-2500:], key=robust.classify_crash(t.crash)): n += 1
         res.oblige("search: no sanitizer report / crash on %d clean and %d faulted runs (ASan+UBSan)" % (len(sw.cases), len(sw.run_faults())), n == 0)
         hangs = [c.label for c, t in zip(sw.cases, sw.clean) if t.hang]
         for c in sw.cases[:3]: res.samples.append(c.label + " :: " + " | ".join(l for l in c.scn.lines if not l.startswith("file "))[:300])
